@@ -18,7 +18,9 @@ DblOk(r) ==
       [] s.kind = "bool" -> r.dbl.bits = IF s.b THEN OneBits ELSE PosZero
       [] s.kind = "null" -> r.dbl.bits = PosZero
       [] s.kind = "string" -> IF ~r.strtod.full THEN r.dbl.bits = PosZero /\ r.dbl.errno = "EINVAL"
-                              ELSE IF r.strtod.range THEN r.dbl.bits \in {PosZero, r.strtod.bits}     \* header: infinity; code and tests: 0.0
+                              \* too big for a double - header: the closest infinity; code and tests: 0.0.  A tiny inexact result (for which
+                              \* strtod also reports ERANGE) is a value that exists: the nearest (sub)normal double or zero, sign kept
+                              ELSE IF r.strtod.range /\ N!IsInf(r.strtod.bits) THEN r.dbl.bits \in {PosZero, r.strtod.bits}
                               ELSE r.dbl.bits = r.strtod.bits
       [] OTHER -> r.dbl.bits = PosZero
 AccOk(r) ==
